@@ -23,5 +23,5 @@ Extraction "model.ml"
   (* trees *) with_children with_pairwise_mutex with_transitive_mutex with_powerset char_tree pg_tree
      pg_conditioned_res pgc_eqb mkey_cmp
   (* specification *) occ_stringb occ_matrixb all_cells_from
-  (* port graphs *) pg_dom pg_opts walk_nodes pgkey_cmp pg_atoms pg_entails pg_refutes pg_constraint_vec pg_cvec_full pg_good_pattern aut_keys_in lines_cover nodes_keyed lines_sound keys_distinct pg_host_wfb
+  (* port graphs *) pg_dom pg_opts walk_nodes pgkey_cmp pg_atoms pg_entails pg_refutes pg_constraint_vec pg_cvec_full pg_good_pattern aut_keys_in aut_single_root match_keys_in lines_cover nodes_keyed lines_sound keys_distinct pg_host_wfb
   (* domains *) table_dom t_atoms t_reqf string_dom matrix_dom s_cvec m_cvec.
